@@ -1,6 +1,6 @@
 (* Property C17 -- $connections equals the number of open sessions on the database *)
 (* Statements only: each theorem restates the proved lemma's statement and is closed by [exact]. *)
-From NunDB Require Import Model.Base Model.Pending Model.Parse Model.Node Proofs.ConnProofs.
+From NunDB Require Import Model.Base Model.Pending Model.Parse Model.Node Proofs.ConnProofs Model.Net Proofs.NetProofs Proofs.NetProofs2.
 Local Open Scope Z_scope.
 
 (* ConnInv: for every database the counter equals the number of OPEN sessions that selected it (and every selection names an existing database) *)
@@ -114,3 +114,24 @@ Theorem C17_inv_needs_sel_exists :
          ~ ConnInv0 (nstep (cex_node, [0%nat]) (ECmd 0 "create-db foo tok")).
 Proof. exact conn_inv_needs_sel_exists. Qed.
 Print Assumptions C17_inv_needs_sel_exists.
+
+(* the counter invariant over the transports: a TCP line, a WebSocket frame, an HTTP request (any bytes), the end of a connection *)
+Theorem C17_net_conn_step :
+  forall (st : node * list nat) (e : net_ev),
+         ConnInv st -> net_ev_ok (snd st) e = true -> ConnInv (net_nstep st e).
+Proof. exact net_conn_step. Qed.
+Print Assumptions C17_net_conn_step.
+
+Theorem C17_net_conn_run :
+  forall (evs : list net_ev) (st : node * list nat),
+         ConnInv st -> net_run_ok st evs = true -> ConnInv (fold_left net_nstep evs st).
+Proof. exact net_conn_run. Qed.
+Print Assumptions C17_net_conn_run.
+
+(* from a fresh node, after any sequence of transport events, every database's counter equals the number of open connections that selected it *)
+Theorem C17_net_conn_run_from_init :
+  forall (u p a : str) (pid : N) (r : role) (c0 : N) (evs : list net_ev),
+         net_run_ok (init_node u p a pid r c0, []) evs = true ->
+         ConnInv (fold_left net_nstep evs (init_node u p a pid r c0, [])).
+Proof. exact net_conn_run_from_init. Qed.
+Print Assumptions C17_net_conn_run_from_init.
